@@ -117,7 +117,7 @@ func c03Rules(p *Prog) *RuleSet {
 	done, _ := p.constOf("fdo/protocol", "DIDoneMsgType")
 	rs.Atoms = append(rs.Atoms,
 		equal("done2-nonce-eq", "the decoded Done2 nonce equals the SetupDevice nonce of this run", decoded, func(m *Matcher, v ssa.Value) bool {
-			return m.Prov(v).HasPrefix("param:") && !m.Prov(v).Has("decoded:")
+			return m.Prov(v).HasPrefix("param:") && !m.Prov(v).HasLocal("decoded:")
 		}),
 		AtomDef{Name: "di-done-received", Doc: "the response to DI.SetHMAC has type DI.Done", Edge: func(m *Matcher, pd Pred, holds bool) bool {
 			if pd.Kind != "eq" || !holds {
@@ -376,7 +376,7 @@ func c03OwnerHeader(p *Prog, r *Result, f *Flow, sites []ssa.CallInstruction) {
 			ok := len(fl) == 6 && has("Version", cur, "field:fdo.VoucherHeader.Version") && has("DeviceInfo", cur, "field:fdo.VoucherHeader.DeviceInfo") &&
 				has("CertChainHash", cur, "field:fdo.VoucherHeader.CertChainHash") && has("GUID", "call:fdo.TO2SessionState.ReplacementGUID") &&
 				has("RvInfo", "call:fdo.TO2SessionState.RvInfo") && has("ManufacturerKey", "via:fdo.OwnerKeyPersistentState.OwnerKey")
-			excl := !m.Prov(fl["GUID"]).Has(cur) && !m.Prov(fl["RvInfo"]).Has(cur)
+			excl := !m.Prov(fl["GUID"]).HasLocal(cur) && !m.Prov(fl["RvInfo"]).HasLocal(cur)
 			r.table(p, "C03.owner-header-sources", "VoucherHeader literal in "+p.FuncName(fn), p.Pos(al.Pos()), ok && excl, fmt.Sprintf("%d fields", len(fl)))
 		}
 		for _, al := range literalsOf(fn, "fdo.Voucher") {
